@@ -10,6 +10,10 @@ pub struct RunState {
     late_strs: Vec<lol_html_str_t>,
     free_strings_late: bool,
     poll_errors: bool,
+    /// leave some errors untaken (header: the last error stays until taken or replaced): a later
+    /// failure must replace the pending message
+    defer_errors: bool,
+    deferred_pending: bool,
     stream_created: usize,
     stream_dropped: usize,
     end_tag_ctxs: Vec<*mut Ctx>,
@@ -80,7 +84,28 @@ unsafe fn take_error(run: &mut RunState, what: &str) -> String {
         .join()
         .unwrap_or_else(|_| vec!["helper thread panicked".into()]);
         run.problems.extend(problems);
+        // a thread that exits with an untaken error must not leave it to a thread created later
+        let _ = std::thread::spawn(|| unsafe {
+            let bad = b"p[";
+            let s = lol_html_selector_parse(bad.as_ptr() as *const c_char, bad.len());
+            if !s.is_null() {
+                lol_html_selector_free(s);
+            }
+        })
+        .join();
+        let stale = std::thread::spawn(|| unsafe {
+            let e = lol_html_take_last_error();
+            let seen = !e.data.is_null();
+            lol_html_str_free(e);
+            seen
+        })
+        .join()
+        .unwrap_or(false);
+        if stale {
+            run.problems.push("a new thread sees the untaken error of a thread that has exited".into());
+        }
     }
+    run.deferred_pending = false;
     let e = unsafe { lol_html_take_last_error() };
     match unsafe { take_str(run, e) } {
         Some(s) if !s.is_empty() => s,
@@ -98,7 +123,7 @@ unsafe fn take_error(run: &mut RunState, what: &str) -> String {
 /// After a successful call: no stale error may be pending.
 unsafe fn expect_no_error(run: &mut RunState, what: &str) {
     run.calls += 1;
-    if run.poll_errors && run.calls % 4 == 0 {
+    if run.poll_errors && !run.deferred_pending && run.calls % 4 == 0 {
         let e = unsafe { lol_html_take_last_error() };
         if let Some(s) = unsafe { take_str(run, e) } {
             run.problems.push(format!("{what} succeeded but a last error is pending: {s:?}"));
@@ -117,7 +142,12 @@ unsafe fn rc_text(run: &mut RunState, rc: c_int, what: &str) -> String {
 
 unsafe fn rc_plain(run: &mut RunState, rc: c_int, what: &str) -> String {
     if rc != 0 {
-        let _ = unsafe { take_error(run, what) };
+        if run.defer_errors {
+            // not taken: the next failure has to replace this message
+            run.deferred_pending = true;
+        } else {
+            let _ = unsafe { take_error(run, what) };
+        }
     }
     format!("{rc}")
 }
@@ -487,6 +517,8 @@ pub fn run(s: &Script) -> (Outcome, Vec<String>) {
         late_strs: vec![],
         free_strings_late: s.free_strings_late,
         poll_errors: s.poll_errors,
+        defer_errors: s.defer_errors,
+        deferred_pending: false,
         stream_created: 0,
         stream_dropped: 0,
         end_tag_ctxs: vec![],
@@ -499,6 +531,16 @@ pub fn run(s: &Script) -> (Outcome, Vec<String>) {
         let r = &mut *run;
         // a stale error from a previous case on this thread would be a harness problem: clear it
         lol_html_str_free(lol_html_take_last_error());
+        if r.defer_errors {
+            // an unrelated failure whose message is never fetched: every later message must replace it
+            let bad = b"div[";
+            let p = lol_html_selector_parse(bad.as_ptr() as *const c_char, bad.len());
+            if !p.is_null() {
+                r.problems.push("bad selector 'div[' accepted".into());
+                lol_html_selector_free(p);
+            }
+            r.deferred_pending = true;
+        }
         let mut selectors: Vec<*mut c_void> = vec![];
         for sh in &s.sels {
             let p = lol_html_selector_parse(sh.selector.as_ptr() as *const c_char, sh.selector.len());
@@ -606,7 +648,11 @@ pub fn run(s: &Script) -> (Outcome, Vec<String>) {
         }
         let e = lol_html_take_last_error();
         if let Some(x) = take_str(r, e) {
-            r.problems.push(format!("an error is still pending after the run: {x:?}"));
+            if !r.deferred_pending {
+                r.problems.push(format!("an error is still pending after the run: {x:?}"));
+            }
+        } else if r.deferred_pending {
+            r.problems.push("a failure whose message was never taken left no last error".into());
         }
         for sx in std::mem::take(&mut r.late_strs) {
             lol_html_str_free(sx);
